@@ -86,8 +86,11 @@ def build_items(tier, seed, wd):
     return items, sweeps
 
 
+FAMILY_FILES = ['harness/fixfam.py', 'harness/runfix.py', 'harness/configs.py', 'harness/variants.py', 'harness/vlex.py', 'spec/Edits.tla', 'spec/FixTrace.tla', 'spec/FixTrace.cfg', 'spec/FixPipeline.tla', 'spec/MC_FixPipeline_quick.cfg', 'spec/MC_FixPipeline_thorough.cfg']
+
+
 def collect(tier):
-    th = common.tree_hash()
+    th = common.tree_hash(FAMILY_FILES)
     key = "%s/fixfam_%s_%d" % (th, tier, common.seed())
     with common.Lock("fixfam_" + tier):
         cd = common.cache_dir(key)
